@@ -327,6 +327,24 @@ func (BSCScenario) Generate(rng *rand.Rand, focus, tier string) kernel.Plan {
 			add("export")
 		}
 	}
+	if focus == "C01" && kernel.Chance(rng, 0.5) || kernel.Chance(rng, 0.03) {
+		// window episode: two packets a window apart are delivered in order, then the first is delivered
+		// again with a fresh, valid proof (its commitment is still on the counterparty)
+		add("wwrite", 2, rng.Int63(), rng.Int63n(int64(len(seqWindows))))
+		for i := 0; i < 14; i++ {
+			add("hdr", 0, rng.Int63())
+		}
+		add("block", 20)
+		for _, idx := range []int64{-2, -1, -2} {
+			add("recv", idx, 0, 0, rng.Int63())
+			add("block", 3)
+			add("hdr", 0, rng.Int63())
+			add("hdr", 0, rng.Int63())
+			add("block", 3)
+		}
+		add("recv", -2, 4, 0, rng.Int63())
+		add("block", 3)
+	}
 	if focus == "C14" && kernel.Chance(rng, 0.04) {
 		// wall-clock probe: one honest header stamped just ahead of the real clock, delivered in its own block
 		add("wallclock")
@@ -493,7 +511,7 @@ func (w *bscWorld) apply(op kernel.Op) {
 	switch op.K {
 	case "hdr":
 		w.opHeader(op)
-	case "write":
+	case "write", "wwrite":
 		w.opWrite(op)
 	case "recv":
 		w.opRecv(op)
@@ -741,6 +759,25 @@ func (w *bscWorld) opWrite(op kernel.Op) {
 	r := rand.New(rand.NewSource(op.Arg(1)))
 	for i := int64(0); i < op.Arg(0); i++ {
 		seq := stubSeq(len(w.packets), w.cfg["special_seq"], r.Int63n(1<<20))
+		var prev []uint64
+		used := map[uint64]bool{}
+		for _, q := range w.packets {
+			prev = append(prev, q.seq)
+			used[q.seq] = true
+		}
+		if x := r.Int63n(1 << 20); op.K == "wwrite" && i == 1 || w.cfg["special_seq"] != 0 && x%5 == 0 {
+			// a sequence one "window" after an earlier one of this path
+			if op.K == "wwrite" {
+				prev, x = prev[len(prev)-1:], 64*op.Arg(2)
+			}
+			if ws := windowSeq(prev, used, x); ws != 0 {
+				seq = ws
+				w.rec.Probe("seq.window")
+			}
+		}
+		for used[seq] {
+			seq++
+		}
 		checkPacketPaths(w.rec, w.name, "host", seq)
 		pkt := packettypes.Packet{SrcChain: w.name, DstChain: "host", Sequence: seq, Sender: "0xabc", TransferData: []byte{}, CallData: []byte{byte(r.Intn(255)), 1},
 			CallbackAddress: "", FeeOption: 0}
